@@ -3,4 +3,5 @@
 pub mod dict;
 pub mod ds;
 pub mod file;
+pub mod negotiate;
 pub mod pdu;
